@@ -68,8 +68,9 @@ Definition self_dep (deps : nat -> list nat) (regs : list nat) : bool :=
 Definition flat_table (fuel : nat) (deps : nat -> list nat) (regs : list nat) : option (list (nat * list nat)) :=
   sequence (map (fun r => option_map (fun s => (r, rev s)) (sort_deps fuel deps r)) regs).
 
-Definition mutual (rd : nat -> list nat) (regs : list nat) : bool :=
-  existsb (fun r => existsb (fun o => negb (Nat.eqb r o) && memb o (rd r) && memb r (rd o)) regs) regs.
+(* the cycle check ranges over the entries of the rootDeps map *)
+Definition mutual (tbl : list (nat * list nat)) : bool :=
+  existsb (fun p => existsb (fun q => negb (Nat.eqb (fst p) (fst q)) && memb (fst q) (snd p) && memb (fst p) (snd q)) tbl) tbl.
 
 (* DSLContext.Roots(): n = size of the node universe (all deps are < n) *)
 Definition roots (n : nat) (deps : nat -> list nat) (regs : list nat) : res :=
@@ -78,7 +79,7 @@ Definition roots (n : nat) (deps : nat -> list nat) (regs : list nat) : res :=
   | None => OutOfFuel
   | Some tbl =>
     let rd := lookup tbl in
-    if mutual rd regs then Cycle else
+    if mutual tbl then Cycle else
     match sequence (map (sort_deps (depth_fuel n) rd) regs) with
     | None => OutOfFuel
     | Some ss => Ok (merge_first ss)
